@@ -1,6 +1,6 @@
 import NixModel.Pure.Dim
 import NixModel.Pure.DimSpec
-import NixModel.Lemmas.C07Round
+import NixModel.Lemmas.C07Sep
 
 /-!
 # C07 — dimension descriptors map positions to sample indices by order, exactly
@@ -121,6 +121,34 @@ theorem range_indices_set (n : Nat) (s e : Rat) (m : SliceMode)
     MeetsRange m setCoord (setDom n) s e (setRangeIndices n s e m) :=
   setRangeIndicesT_meets setHitTol gen_tol_facts.2.2.1 gen_tol_facts.2.2.2 setEndMode
     generated_tables.2.2.2.2.2.1 n s e m hs he
+
+/-! ## `Separated` is the condition on the two neighbouring samples -/
+
+/-- the scaled position `x ≥ 0` is on a sample, or outside the band of the sample below it and of
+the sample above it -/
+def OffBand (t : Tol) (x : Rat) : Prop :=
+  x = (x.floor : Rat) ∨
+    (band t (x.floor : Rat) < x - (x.floor : Rat) ∧ band t ((x.floor : Rat) + 1) < (x.floor : Rat) + 1 - x)
+
+/-- for any tolerances: where the band is below half a sample, `OffBand` (two neighbours) gives
+`SeparatedAt` (all samples) -/
+theorem separated_of_neighbours (t : Tol) (hr : 0 ≤ t.rtol) (ha : 0 ≤ t.atol) (x : Rat) (h0 : 0 ≤ x)
+    (hb : band t (x + 2) < 1 / 2) (h : OffBand t x) : SeparatedAt t x :=
+  Lemmas.separated_of_neighbours t hr ha x h0 hb h
+
+/-- with the generated tolerances, up to index 10¹¹ -/
+theorem separated_sampled_of_neighbours (off si pos : Rat)
+    (h0 : 0 ≤ (pos - off) / si) (hx : (pos - off) / si ≤ 100000000000)
+    (hz : OffBand sampledZeroTol ((pos - off) / si)) (hh : OffBand sampledHitTol ((pos - off) / si)) :
+    SeparatedSampled off si pos := by
+  have hb := gen_band_limit_rat ((pos - off) / si + 2) (by linarith) (by linarith)
+  exact ⟨Lemmas.separated_of_neighbours _ gen_tol_facts.1.1 gen_tol_facts.1.2.1 _ h0 hb.1 hz,
+    Lemmas.separated_of_neighbours _ gen_tol_facts.2.1.1 gen_tol_facts.2.1.2 _ h0 hb.2.1 hh⟩
+
+theorem separated_set_of_neighbours (pos : Rat) (h0 : 0 ≤ pos) (hx : pos ≤ 100000000000)
+    (h : OffBand setHitTol pos) : SeparatedAt setHitTol pos := by
+  have hb := gen_band_limit_rat (pos + 2) (by linarith) (by linarith)
+  exact Lemmas.separated_of_neighbours _ gen_tol_facts.2.2.1 gen_tol_facts.2.2.2 _ h0 hb.2.2 h
 
 /-! ## how wide the band is -/
 
